@@ -88,7 +88,22 @@ func main() {
 			defer os.Remove(logPath + ".stderr")
 			cmd.Stderr = lf
 			cmd.Stdout = lf
-			err := cmd.Run()
+			err := cmd.Start()
+			if err == nil {
+				done := make(chan error, 1)
+				go func() { done <- cmd.Wait() }()
+				select {
+				case err = <-done:
+				case <-time.After(20 * time.Minute):
+					// a worker that never finishes (e.g. blocked on a handler that hangs): not a
+					// crash, and nothing a wall clock may decide
+					cmd.Process.Kill()
+					<-done
+					lf.Close()
+					rep.Inconclusive("worker " + name + " exceeded the 20 min watchdog; last case: " + lastLine(logPath))
+					return
+				}
+			}
 			lf.Close()
 			b, rerr := os.ReadFile(outPath)
 			if err != nil || rerr != nil {
